@@ -64,7 +64,7 @@ def gen_read(rnd, i):
     need = [rnd.randint(1, 3) for _ in range(rnd.randint(1, 3))]
     ops = []
     for n in need:
-        ops.append([rnd.choice(['Next', 'NextT', 'NextT']), n])
+        ops.append([rnd.choice(['Next', 'NextT', 'NextT', 'NextT', 'NextD']), n])
     total = sum(need)
     peer = []
     left = total + rnd.choice([0, 0, -1, -1, 1])
@@ -112,8 +112,12 @@ def gen_flush(rnd, i):
     # unlocked Writer methods (Malloc/WriteBinary/Append) racing closeBuffer() are outside C08 (see DESIGN, leads)
     if rnd.random() < 0.25 and not any(o[0] in ('WriteV', 'AppendV') for o in ops):
         actors += _closers(rnd, 1, 1)
-    return {'kind': rnd.choice(['client', 'fd']), 'onconnect': False, 'ondisconnect': False, 'onrequest': False, 'onprepare': True,
-            'nclosecb': 1, 'handler': [], 'actors': actors, 'peer': peer, 'sndbuf': 4096}
+    sc = {'kind': rnd.choice(['client', 'fd']), 'onconnect': False, 'ondisconnect': False, 'onrequest': False, 'onprepare': True,
+          'nclosecb': 1, 'handler': [], 'actors': actors, 'peer': peer, 'sndbuf': 4096}
+    if rnd.random() < 0.15 and any(p[0] == 'close' for p in peer):
+        # an application whose OnDisconnect joins its writer goroutines: the blocked flusher must be woken before the callback returns
+        sc.update({'kind': 'server', 'ondisconnect': True, 'discbody': 'waitwriters'})
+    return sc
 
 
 def gen_cb(rnd, i):
@@ -130,6 +134,14 @@ def gen_cb(rnd, i):
 
 
 def gen_stream(rnd, i):
+    if rnd.random() < 0.12:
+        # spurious readiness: a backlog above one booking (4096) is buffered while the reader is slow, then a thief empties the socket
+        # between the poller's fetch and its read (the readv finds nothing: InputAck(0)), then more data arrives and everything is read
+        first = rnd.choice([4097, 5000, 6000])
+        peer = [['send', first], ['send', rnd.randint(1, 20)], ['send', rnd.randint(1, 40)], ['send', rnd.randint(1, 40)], ['close']]
+        return {'kind': 'client', 'onconnect': False, 'ondisconnect': False, 'onrequest': False, 'onprepare': True, 'nclosecb': 1, 'handler': [],
+                'actors': [{'name': 'reader', 'ops': [['Yield'], ['Yield'], ['Yield'], ['Next', first], ['Next', -1], ['Yield'], ['Next', -1], ['Yield'], ['Next', -1], ['Yield'], ['Next', -1]]}],
+                'peer': peer, 'steals': rnd.randint(1, 2), 'focus': True}
     # C04 under the controlled scheduler: a reader goroutine mixing Next and Until against any chunking,
     # or a handler consuming piecemeal, with the peer closing after its last byte
     total = rnd.randint(3, 30)
@@ -160,7 +172,7 @@ GENS = {'stream': gen_stream, 'close': gen_close, 'req': gen_req, 'read': gen_re
 
 
 def gen_scenarios(family, n, seed):
-    rnd = random.Random(seed * 7919 + hash(family) % 1000)
+    rnd = random.Random(seed * 7919 + sum(ord(ch) * (k + 1) for k, ch in enumerate(family)) % 1000)   # (not hash(): it differs from process to process)
     out = []
     for i in range(n):
         sc = GENS[family](rnd, i)
